@@ -195,6 +195,14 @@ Theorem C14_gc_count : forall tr s s',
   length (junk s') = (length (junk s) + length (filter del_failed tr))%nat.
 Proof. exact junk_count. Qed.
 Print Assumptions C14_gc_count.
+
+(* ... and with lost PUT responses as well (the update stops before deleting the old index): at
+   most one more dangling index per failed deletion or lost PUT, for every trace *)
+Theorem C14_gc_bound : forall tr s s',
+  run false s tr = Some s' ->
+  (length (junk s') <= length (junk s) + length (filter (fun e => del_failed e || put_lost e) tr))%nat.
+Proof. exact junk_bound. Qed.
+Print Assumptions C14_gc_bound.
 (* LOST RESPONSE of the index PUT / DELETE (EPutLost: the registry stores the new index, the
    client sees an error; EDelLost: the registry deletes the old index, the client sees an error
    - the index-delete error after a PUT, a plain error when the deletion WAS the update; ghost
@@ -385,6 +393,14 @@ Theorem C14_fine_bounded_completion : forall sg r0 st0 tr f,
 Proof. exact fine_bounded_completion. Qed.
 Print Assumptions C14_fine_bounded_completion.
 
+(* ... hence: from every reachable state of the channel-level system there IS a run without
+   new calls to a quiescent state (every caller inside Do has returned and released) *)
+Theorem C14_fine_terminates : forall sg r0 st0 tr f,
+  frun sg (finit r0 st0) tr = Some f ->
+  exists tr' f', forallb (fun e => negb (fis_env e)) tr' = true /\ frun sg f tr' = Some f' /\ fquiescent f'.
+Proof. exact fine_terminates. Qed.
+Print Assumptions C14_fine_terminates.
+
 Theorem C14_fine_counting : forall sg r0 st0 tr f,
   frun sg (finit r0 st0) tr = Some f -> InvF f /\ InvP f.
 Proof. exact fine_reachable_inv. Qed.
@@ -489,6 +505,18 @@ Example live_ex :
   | None => False
   end.
 Proof. vm_compute. repeat split. Qed.
+
+(* lost responses of the manifest exchanges: the PUT of dB takes effect but the push sees an error
+   (live, unlisted, tainted); the delete's manifest DELETE takes effect (LDel) *)
+Example live_lost_ex :
+  match lrun false (linit (Some [dA]) [] [1])
+    [LPutLost dB; LIdx (EGet 1 (Remove dA)); LIdx (EAssign 1); LIdx (ERecvMain 1); LIdx (EPrepare 1 false);
+     LIdx (ECommit 1); LIdx (EDel 1 false); LIdx (EComplete 1); LIdx (EDone 1); LDel 1]%nat with
+  | Some m => l_inflight m = [] /\ l_taint m = [2] /\ l_live m = [2] /\ reg (l_s m) = None /\
+              consistent m 1 /\ ~ consistent m 2
+  | None => False
+  end.
+Proof. vm_compute. repeat split; try discriminate. Qed.
 
 (* channel level, error path with a late receiver: caller 1 receives its status after the main
    caller 0 has swapped and caller 2 has become the main caller of the next batch *)
